@@ -49,3 +49,61 @@ Example C17_accepts_somewhere :
   gen_check FSameOdd 3 0 4 [ [[(0,0);(10,0);(10,10);(0,10)]] ; [[(10,10);(0,10);(0,0);(10,0)]] ]%Z
             [[(0,0);(10,0);(10,10);(0,10)]]%Z [] [0; 10]%Q = true.
 Proof. vm_compute. reflexivity. Qed.
+
+(* (iii) the orderings the sweep sorts with (anchors: reset, processIntersectList,
+   convertHorzSegsToJoins/horzSegSort), as TRANSLATED FROM /repo's CURRENT SOURCE on every run
+   (Gen/Comparators_gen.v; the compared objects are abstract, every field read is a parameter):
+   each is a consistent comparator, so the sorted order is a function of the sort keys and not of
+   the arrangement in which the sorting routine happens to meet the elements. *)
+From Clip Require Import Gen.Comparators_gen Model.ComparatorProofs.
+Theorem C17_horzSegSort_consistent :
+  forall (obj : Type) (nil_rightOp nil_self : obj -> bool) (leftX : obj -> Z) (a b c : obj),
+    let cmp := gen_horzSegSort obj nil_rightOp nil_self leftX in
+    nil_self a = false -> nil_self b = false -> nil_self c = false ->
+    cmp a b = (- cmp b a)%Z /\
+    ((cmp a b <= 0)%Z -> (cmp b c <= 0)%Z -> (cmp a c <= 0)%Z) /\
+    ((cmp a b < 0)%Z <-> (nil_rightOp a = false /\ nil_rightOp b <> false) \/
+                         (nil_rightOp a = false /\ nil_rightOp b = false /\ (leftX a < leftX b)%Z)).
+Proof.
+  intros obj nr ns lx a b c cmp Ha Hb Hc. split; [|split].
+  - apply horzSegSort_antisym; assumption.
+  - apply horzSegSort_trans; assumption.
+  - apply horzSegSort_spec; assumption.
+Qed.
+Theorem C17_intersection_order_strict_weak :
+  forall (obj : Type) (X Y : obj -> Z) (a b c : obj),
+    let less := gen_intersect_less obj X Y in
+    less a a = false /\
+    (less a b = true -> less b c = true -> less a c = true) /\
+    ((less a b = false /\ less b a = false) <-> (X a = X b /\ Y a = Y b)) /\
+    (less a b = true <-> ((Y a > Y b)%Z \/ (Y a = Y b /\ (X a < X b)%Z))).
+Proof.
+  intros obj X Y a b c less. repeat split.
+  - apply intersect_less_irrefl.
+  - apply intersect_less_trans.
+  - apply (proj1 (intersect_less_incomparable obj X Y a b) H).
+  - apply (proj1 (intersect_less_incomparable obj X Y a b) H).
+  - apply (proj2 (intersect_less_incomparable obj X Y a b) H).
+  - apply (proj2 (intersect_less_incomparable obj X Y a b) H).
+  - apply (proj1 (intersect_less_spec obj X Y a b)).
+  - apply (proj2 (intersect_less_spec obj X Y a b)).
+Qed.
+Theorem C17_minima_order_strict_weak :
+  forall (obj : Type) (Y : obj -> Z) (a b c : obj),
+    let less := gen_minima_less obj Y in
+    less a a = false /\
+    (less a b = true -> less b c = true -> less a c = true) /\
+    ((less a b = false /\ less b a = false) <-> Y a = Y b) /\
+    (less a b = true <-> (Y a > Y b)%Z).
+Proof.
+  intros obj Y a b c less. split; [|split; [|split]].
+  - apply minima_less_irrefl.
+  - apply minima_less_trans.
+  - apply minima_less_incomparable.
+  - apply minima_less_spec.
+Qed.
+(* the comparator as found (never +1: equal left X -> 0, otherwise -1) was not antisymmetric *)
+Example C17_old_horzSegSort_refuted :
+  let old (x y : Z) := if (x =? y)%Z then 0%Z else (-1)%Z in old 1%Z 2%Z <> (- old 2%Z 1%Z)%Z.
+Proof. cbn. discriminate. Qed.
+Print Assumptions C17_horzSegSort_consistent.
